@@ -4,7 +4,7 @@
    sparse path lists exactly the stored pairs below the diagonal (zero distances included), aligned
    with their differences.  That every pair with d <= maxlag is stored with its true distance is the
    contract of cKDTree.sparse_distance_matrix (checked per case by the harness, C20). *)
-From SG Require Import Base.Prelude Model.Sparse Model.Groups Proofs.GroupsP Proofs.SparseP.
+From SG Require Import Base.Prelude Model.Sparse Model.Groups Proofs.GroupsP Proofs.SparseP Model.Binning Proofs.BinningP.
 Local Open Scope Q_scope.
 
 Theorem C11_tri_lower_spec m i j d :
@@ -40,6 +40,11 @@ Theorem C11_beyond_irrelevant edges d :
   chain 0 edges -> 0 <= d -> last edges 0 <= d -> group_of edges d = None.
 Proof. intros Hc H0 Hd. exact (proj1 (proj2 (group_of_partition edges d Hc H0) Hd)). Qed.
 Print Assumptions C11_beyond_irrelevant.
+
+(* lowering the maximum lag on a truncated instance loses nothing: the pairs within the smaller maximum lag are still stored *)
+Theorem C11_lowered_maxlag M1 M2 D : M2 <= M1 -> within M2 (within M1 D) = within M2 D.
+Proof. exact (within_nested M1 M2 D). Qed.
+Print Assumptions C11_lowered_maxlag.
 
 Example C11_nonvacuous :
   tri_lower [[(0%nat, 0); (1%nat, 0)]; [(0%nat, 0); (1%nat, 0); (2%nat, 1)]; [(1%nat, 1); (2%nat, 0)]]
